@@ -8,7 +8,7 @@ import tempfile
 PROPERTY = 'C19'
 THEOREMS = ['RunCmd.done_iff_all_zero', 'RunCmd.codes_are_prefix', 'RunCmd.not_run_after_failure',
             'RunCmd.spawn_error_fails_task_not_run', 'RunCmd.output_in_order', 'RunCmd.outdir_injective',
-            'RunCmd.bad_name_fails_task', 'RunCmd.status_total']
+            'RunCmd.bad_name_fails_task', 'RunCmd.status_total', 'RunCmd.build_eq_run', 'RunCmd.build_done_iff']
 BUDGET = {'quick': 600, 'thorough': 8000}
 TIME_LIMIT = {'quick': 50, 'thorough': 600}
 RULE = ('RunTask with 0-5 real command lines (/bin/sh -c printf to both streams, exit k in 0..255 or death by a signal; '
@@ -19,7 +19,8 @@ RULE = ('RunTask with 0-5 real command lines (/bin/sh -c printf to both streams,
         'and with bytes that are not UTF-8, compared byte for byte; two tasks per case to check directory ownership; '
         'non-trivial = a failure (non-zero exit, spawn error or bad name) occurs, or >= 2 commands succeed; '
         'distinct = case hash')
-CORRESPONDS = 'Model/RunCmd.lean (runLoop, run, sanitize, runTask, finalStatus) vs valjean.cosette.run.run/RunTask + Scheduler worker'
+CORRESPONDS = ('Model/RunCmd.lean (runLoop, run, sanitize, runTask, finalStatus, buildSys) vs valjean.cosette.run.run/RunTask + '
+               'Scheduler worker, valjean.cosette.code.BuildTask')
 TRUSTED = ['harness/props/c19.py (generator, scripted commands, oracle)', 'vjdriver (compiled Model/RunCmd.lean)',
            'shlex.quote for the echoed command line (passed to the model as data)']
 ASSUMPTIONS = ['process spawning and file-descriptor inheritance by subprocess.call (commands write straight to the '
